@@ -99,6 +99,7 @@ func genCfg(rng *rand.Rand, profile string) Cfg {
 		c.Expire = true
 	}
 	c.WrapRemember = wrap && c.has("remember")
+	c.NilState = rng.Intn(3) == 0
 	return c
 }
 
